@@ -499,6 +499,10 @@ func (fv *FuncVC) canInline(fr *Frame, callee *ssa.Function, con *Contract) bool
 			if _, ok := fv.helperLoops[fmt.Sprintf("%s#%d", funcKey(callee), li.ordinal)]; ok {
 				continue
 			}
+			if con == nil && fv.inlineLoopHelpers {
+				// retry of a thin-contract function after an edit: a helper's loop is cut like a loop of the function itself
+				continue
+			}
 			if con == nil {
 				return false
 			}
